@@ -337,7 +337,7 @@ func (u *Unit) finish() {
 	if u.theory == "axioms" {
 		extra = append(extra, u.frameAxioms()...)
 	}
-	if len(u.rndArgs) > 0 {
+	if len(u.rndArgs) > 0 || len(u.rndArgs32) > 0 {
 		extra = append(extra, u.rfAxioms(u.rndHints)...)
 	}
 	if inv := u.modelInvariants(nil); !isTrue(inv) {
@@ -647,7 +647,7 @@ func usesTheory(o *Obligation, ctx *Ctx) bool {
 		all = append(all, o.Goal)
 	}
 	collect(all, consts, funs, ctx)
-	for _, f := range []string{"bi", "cdiv", "fdiv", "chanOf", "frameOf", "rnd"} {
+	for _, f := range []string{"bi", "cdiv", "fdiv", "chanOf", "frameOf", "rnd", "rnd32"} {
 		if funs[f] {
 			return true
 		}
